@@ -309,6 +309,8 @@ func (its *PushPullHandler) processSubscribeOrCreate(code pushPullCase) errors.O
 			return its.createDatatype()
 		case caseAllMatchedNotSubscribed:
 			return its.subscribeDatatype()
+		case caseAllMatchedSubscribed: // the client retries because it has not received the previous response
+			return its.subscribeDatatype()
 		}
 	} else if its.gotOption.HasSubscribeBit() {
 		switch code {
@@ -316,7 +318,8 @@ func (its *PushPullHandler) processSubscribeOrCreate(code pushPullCase) errors.O
 			return errors.PushPullNoDatatypeToSubscribe.New(its.ctx.L(), its.Key)
 		case caseUsedDUID:
 		case caseMatchKeyNotType:
-		case caseAllMatchedSubscribed:
+		case caseAllMatchedSubscribed: // the client retries because it has not received the previous response
+			return its.subscribeDatatype()
 		case caseAllMatchedNotSubscribed:
 			return its.subscribeDatatype()
 		case caseAllMatchedNotVisible:
